@@ -54,6 +54,8 @@ pub enum TextMut {
     CrlfAt { i: usize },
     /// append legal characters to the content of occurrence i (mod n); `last` targets the last field
     Append { i: usize, last: bool, suffix: String },
+    /// make the content of occurrence i empty (`:23E:` directly followed by the next field)
+    Empty { i: usize },
 }
 
 #[derive(Serialize, Deserialize, Clone, Debug, PartialEq)]
@@ -213,6 +215,7 @@ fn apply_text_muts(occs: &mut Vec<Occ>, muts: &[TextMut], crlf: &mut bool) {
             TextMut::BlankAfter { i } => occs[i % n].blank_after = true,
             TextMut::Pad { i } => occs[i % n].pad = true,
             TextMut::CrlfAt { i } => occs[i % n].crlf = true,
+            TextMut::Empty { i } => occs[i % n].content.clear(),
             TextMut::Append { i, last, suffix } => {
                 let k = if *last { n - 1 } else { i % n };
                 occs[k].content.push_str(suffix);
@@ -853,7 +856,7 @@ impl Engine for C16 {
         let mut text_muts = vec![];
         for _ in 0..n_muts {
             let (a, b) = (w.below(1000), w.below(1000));
-            text_muts.push(match w.below(20) {
+            text_muts.push(match w.below(22) {
                 0..=2 => TextMut::Dup { i: a, j: b },
                 3 | 4 => TextMut::Swap { i: a, j: b },
                 5..=8 => TextMut::Letter { i: a, letter: (*w.pick(&["A", "B", "C", "D", "F", "K", "L", ""])).to_string() },
@@ -867,6 +870,7 @@ impl Engine for C16 {
                 14 => TextMut::Pad { i: a },
                 15 => TextMut::Crlf,
                 16 | 17 => TextMut::CrlfAt { i: a },
+                20 | 21 => TextMut::Empty { i: a },
                 _ => TextMut::Append { i: a, last: w.chance(1, 2), suffix: (*w.pick(&["-", " -", ".", ",", "/", ":", "-X", "\n-", "\n/-"])).to_string() },
             });
         }
